@@ -294,6 +294,12 @@ def build_events():
     add("rtruediv-number", "same", lambda f, o: 2.0 / f)
     add("pow-number", "same", lambda f, o: f ** 2)
     add("add-constvec", "same", lambda f, o: f + tuple(float(i) for i in range(1, f.nvdim + 1)))
+    # reflected forms with a constant vector / number on the left (each has its own method in the library)
+    add("rand-constvec", "same", lambda f, o: (1.0, -2.0, 0.5) & f, enabled=lambda f: f.nvdim == 3)
+    add("and-constvec", "same", lambda f, o: f & [1.0, -2.0, 0.5], enabled=lambda f: f.nvdim == 3)
+    add("rmatmul-constvec", "same", lambda f, o: tuple(float(i) for i in range(1, f.nvdim + 1)) @ f, enabled=lambda f: f.nvdim > 1)
+    add("radd-constvec", "same", lambda f, o: tuple(float(i) for i in range(1, f.nvdim + 1)) + f, enabled=lambda f: f.nvdim > 1)
+    add("rlshift-number", "same", lambda f, o: 1.5 << f)
     add("lshift-number", "same", lambda f, o: f << 1.5)
     add("ndarray-mul", "same", lambda f, o: np.arange(1.0, f.nvdim + 1) * f)
     add("np.multiply-number", "same", lambda f, o: np.multiply(f, 2.0))
